@@ -4,7 +4,7 @@
 
    Model: HD/HD.v (`parse` = NewKeyFromString, `to_string` = String).  secp256k1 enters through
    ser_point / parse_point / pzero with the hypotheses listed in the Section. *)
-From BU Require Import Lib.Bytes Lib.Sha256 Base58.Base58 Gen.Nets HD.HD HD.HDRun HD.XKeyProofs HD.XKeyReach HD.HDExamples HD.HDConsistent.
+From BU Require Import Lib.Bytes Lib.Sha256 Base58.Base58 Gen.Nets HD.HD HD.HDRun HD.XKeyProofs HD.XKeyReach HD.XKeyAccept HD.HDExamples HD.HDConsistent.
 
 Section C05.
 Variable point : Type.
@@ -24,7 +24,8 @@ Hypothesis H_ser_len : forall P, length (ser_point P) = 33%nat.
 Hypothesis H_ser_bytes : forall P, Bytes (ser_point P).
 Hypothesis H_ser_head : forall P, nth 0 (ser_point P) 0 <> 0.                    (* 0x02 / 0x03 *)
 Hypothesis H_parse_ser : forall P, pzero P = false -> parse_point (ser_point P) = Ok P.
-Hypothesis H_ser_parse : forall b P, parse_point b = Ok P -> b = ser_point P /\ pzero P = false.
+Hypothesis H_ser_parse : forall b P, length b = 33%nat -> parse_point b = Ok P -> b = ser_point P /\ pzero P = false.
+  (* only for 33-byte inputs: bchec.ParsePubKey also accepts 65-byte uncompressed / hybrid encodings *)
 Hypothesis H_mul_nonzero : forall a, (0 < a < Bip32Spec.n)%Z -> pzero (point_of_scalar a) = false.
 
 Local Notation parse := (HD.parse point parse_point sha256d).
@@ -84,6 +85,22 @@ Theorem C05_parse_rejects_pubkey : forall s e,
   parse_point (slice 45 78 d) = Err e -> parse s = Err e.
 Proof. exact (parse_rejects_pubkey point parse_point sha256d). Qed.
 
+(* (review round 2) the failure classes above are exhaustive: one equivalence for acceptance, one for rejection.
+   acceptable d := |d| = 82 /\ d[78:] = SHA-256d(d[:78])[:4] /\
+                   (d[45] = 0 /\ 0 < d[46:78] < n  \/  d[45] <> 0 /\ ParsePubKey accepts d[45:78]) *)
+Theorem C05_accept_iff : forall s,
+  (exists k, parse s = Ok k) <->
+  let d := Base58.decode s in
+  length d = 82%nat /\ skipn 78 d = cks4 (firstn 78 d) /\
+  ((nth 45 d 0 = 0 /\ 0 < set_bytes (slice 46 78 d) < secp_nN) \/
+   (nth 45 d 0 <> 0 /\ exists P, parse_point (slice 45 78 d) = Ok P)).
+Proof. exact (parse_accept_iff point parse_point sha256d). Qed.
+
+(* "every other string is rejected": with an error (never a key, never a panic), given that ParsePubKey does not panic *)
+Theorem C05_reject_iff : forall s, (forall b p, parse_point b <> Panic p) ->
+  ((exists e, parse s = Err e) <-> ~ acceptable point parse_point sha256d (Base58.decode s)).
+Proof. exact (parse_reject_iff point parse_point sha256d). Qed.
+
 Theorem C05_parse_no_panic : forall s, (forall b k, parse_point b <> Panic k) -> forall k, parse s <> Panic k.
 Proof. exact (parse_no_panic point parse_point sha256d). Qed.
 
@@ -97,6 +114,8 @@ Print Assumptions C05_parse_rejects_foreign.
 Print Assumptions C05_parse_rejects_checksum.
 Print Assumptions C05_parse_rejects_scalar.
 Print Assumptions C05_parse_rejects_pubkey.
+Print Assumptions C05_accept_iff.
+Print Assumptions C05_reject_iff.
 Print Assumptions C05_parse_no_panic.
 
 (* Example: the xprv of BIP32 test vector 1, chain m/0H/1, is accepted by the model (SHA-256d computed in Coq),
